@@ -1,7 +1,775 @@
-"""C17 skeleton (facts only) — replaced below."""
+"""C17 — the C extension is memory-safe and decodes OS records faithfully (level: partial).
+
+Model: lean/PsutilModel/Model/C17.lean (+C17Gen), Spec: Spec/C17.lean, theorems: Props/C17.lean.
+Correspondence: the freshly built extension (normal build; in the thorough tier also a clang
+ASan+UBSan build) is driven in SUB-PROCESSES (harness/props/c17_worker.py) on crafted utmp files
+(utmpname() through ctypes), crafted mounts + filesystems files, an LD_PRELOAD shim that makes
+sched_getaffinity() answer EINVAL, and an argument fuzzer over every entry point; decoded records
+and exception classes are compared with the Lean model (and the Lean spec); a worker that dies
+(signal, sanitizer abort, hang) is an observable and its last input is the replay.
+"""
+import re
+
+from harness.common.build import InfraError
+from harness.common.shrink import ddmin
+from harness.props import c17_cases as G
 from harness.props import c17_facts
+from harness.props import c17_util as U
+
 PROP = "C17"
 DRIVER_MODULES = ["PsutilModel.Model.C17Gen", "PsutilModel.Spec.C17"]
 NEEDS_EXT = True
+TRUSTED = [
+    "C17 is PARTIAL: the theorems are about a Lean model of the decoders (struct utmp layout, C-string reads, the Python filters) and of the bounds arithmetic (PSUTIL_STRNCPY, MAC formatting, affinity loop, CPU_SET, pid range, ioprio packing); memory safety of the COMPILED code is supported by differential testing of the real extension in sub-processes, in the thorough tier under clang AddressSanitizer + UBSan — testing, not proof",
+    "regex facts from C (users.c decode calls, PSUTIL_STRNCPY, guards in proc.c, flag table) and system headers (<net/if.h>, <netdb.h> NI_MAXHOST, <bits/cpu-set.h>): a shape the regex does not recognise is skipped (baseline kept) and then only the correspondence ties it",
+    "glibc (getutent record chunking, getmntent escape decoding and 4095-byte line cut, CPU_SET bounds check, strncpy, sprintf) and CPython's PyArg_ParseTuple format units are modelled/independently re-implemented in the harness and validated by the correspondence, not verified",
+    "PYTHONUTF8=1: bytes <-> str through surrogateescape is a bijection (modelled as identity on bytes); mnt_type / mnt_opts go through strict UTF-8 ('s' format): invalid UTF-8 there is a UnicodeDecodeError (an exception, allowed by the property), checked but outside the Lean model",
+]
+ASSUMPTIONS = [
+    "struct utmp layout of glibc on x86-64 (384 bytes, 32-bit ut_tv); /proc/filesystems lines are '[nodev]\\t<name>' with names free of whitespace and, for disk-backed types, not starting with 'nodev' (otherwise line.split('\\t')[1] raises IndexError — proved as the model's behaviour, no such type exists)",
+    "mounts files without NUL bytes for the exact comparison (a NUL makes glibc's getmntent drop the rest of the line and the next line); NUL/garbage files are still fed under the no-crash oracle",
+]
+MANIFEST = {
+    "level_text": "PARTIAL. Machine-checked Lean 4 theorems over a byte-level MODEL of the extension's decoders and bounds logic: C17_users_fields_cut (users() over every utmp file = the USER_PROCESS records with user/terminal/host cut at the first NUL or at the field width, ':0'/':0.0' as localhost, start time, PID) and C17_users_read_in_record (every string read stays inside the 384-byte record) for the size-bounded decode, both DISPROVED for the unbounded PyUnicode_DecodeFSDefault decode by the full-width record (lead L14: 341-char name); C17_filesystems_parse + C17_partitions_filter (+ _kept_iff, _all); C17_strncpy_terminated; C17_mac_fits; C17_affinity_no_overflow (loop never multiplies past INT_MAX and terminates, any kernel answers); C17_cpuset_in_bounds / C17_affinity_set_in_bounds (CPU_SET on any C long); C17_pid_range; C17_ioprio_no_overflow, C17_ioprio_entry_defined, C17_ioprio_reach (no ioclass reaches an undefined shift once a range check exists; counterexample ionice(2**18, 0) without it, lead L15); C17_iff_table / C17_iff_flag_names / C17_iff_documented. Which variant the source uses is re-extracted on every run (regex over users.c, proc.c, _psutil_common.h, _psutil_posix.c; ast over _pslinux.py) and feeds the proof obligations ucfg_good … icfg_safe. Memory safety of the COMPILED C is NOT proved: it is supported by a differential run of the real extension in sub-processes — crafted utmp files via utmpname(), crafted mounts/filesystems files, a sched_getaffinity EINVAL shim, exhaustive ioprio/pid edge grids and an argument fuzzer over every entry point — compared with the model's decoding, where a crash, hang or sanitizer report is a violation; the thorough tier repeats it on a clang -fsanitize=address,undefined build. That part is testing.",
+    "level_note": "Trusted: Lean kernel + {propext, Classical.choice, Quot.sound}; regex/ast translator; glibc/CPython semantics re-implemented in the harness (getmntent decoding, PyArg format units); the struct utmp layout; sanitizer coverage is only as good as the inputs explored. net_if_addrs()/net_if_stats() vs /sys/class/net and socket.if_nameindex() on the live interfaces is a supporting check (the sandbox has 4 NICs).",
+    "technique": "Lean 4 proofs over byte-level decoder/bounds models + translator-fed proof obligations + sub-process differential testing of the compiled extension (ASan+UBSan in the thorough tier)",
+    "design_ref": "DESIGN.md §5 C17",
+}
+
+
 def facts(snap, F):
     c17_facts.facts(snap, F)
+
+
+# ====================================================================== entry-point formats (harness-level, from the C source)
+
+def entry_formats(snap):
+    """entry point name -> PyArg_ParseTuple format ('*' = arguments ignored), from the method tables."""
+    out = {}
+    srcs = {}
+    for rel in c17_facts.LINUX_C:
+        try:
+            srcs[rel] = c17_facts.c_source(snap, rel)
+        except OSError:
+            pass
+    allsrc = "\n".join(srcs.values())
+    for mod, rel in (("linux", "_psutil_linux.c"), ("posix", "_psutil_posix.c")):
+        for name, cfn in re.findall(r"\{\s*\"(\w+)\"\s*,\s*(\w+)\s*,\s*METH_VARARGS", srcs.get(rel, "")):
+            try:
+                body = c17_facts.c_function(allsrc, cfn)
+            except Exception:
+                continue
+            m = re.search(r"PyArg_ParseTuple\s*\(\s*args\s*,\s*((?:_Py_PARSE_PID|\"[^\"]*\"|\s)+),", body)
+            if not m:
+                out[(mod, name)] = "*"
+                continue
+            toks = re.findall(r"_Py_PARSE_PID|\"[^\"]*\"", m.group(1))
+            fmt = "".join("i" if t == "_Py_PARSE_PID" else t.strip('"') for t in toks)
+            out[(mod, name)] = fmt
+    return out
+
+
+INTLIKE = {"int", "bool", "idx", "intsub", "pid"}
+
+
+def arg_int(a):
+    if a["t"] == "bool":
+        return 1 if a["v"] else 0
+    if a["t"] == "pid":
+        return {"child": 1000, "self": 1000, "zero": 0, "nopid": 4194304 + 77}[a["v"]]   # magnitude class only
+    return int(a["v"])
+
+
+def predict_parse(fmt, args):
+    """Exception class PyArg_ParseTuple raises for these arguments, or None when parsing succeeds."""
+    if fmt == "*":
+        return None
+    units = list(fmt)
+    if len(args) != len(units):
+        return "TypeError"
+    for u, a in zip(units, args):
+        if u == "i":
+            if a["t"] not in INTLIKE:
+                return "TypeError"
+            v = arg_int(a)
+            if v > 2**31 - 1 or v < -2**31:
+                return "OverflowError"
+        elif u == "s":
+            if a["t"] != "str":
+                return "TypeError"
+            if "\0" in a["v"]:
+                return "ValueError"
+            if any(0xD800 <= ord(ch) <= 0xDFFF for ch in a["v"]):
+                return "UnicodeEncodeError"
+    return None
+
+
+def seq_items(a):
+    """items of a Python argument as cpu_affinity_set iterates it: list of ints/None, or an exception class"""
+    t = a["t"]
+    if t in ("list", "tuple"):
+        return [(arg_int(x) if x["t"] in ("int", "bool", "idx", "intsub") else None) for x in a["v"]]
+    if t == "range":
+        return list(range(int(a["v"])))
+    if t == "bytes":
+        return list(bytes.fromhex(a["v"]))
+    if t == "str":
+        return [None] * len(a["v"])
+    if t == "badseq":
+        return "KeyError" if int(a["v"]) > 0 else []
+    return "TypeError"
+
+
+# ====================================================================== comparison of one case
+
+class Run:
+    """One correspondence pass over a build (normal or sanitizer)."""
+
+    def __init__(self, ctx, res, pkg_parent, env_extra, tag):
+        self.ctx, self.res, self.tag = ctx, res, tag
+        self.pkg_parent, self.env_extra = pkg_parent, env_extra
+        self.w = U.Worker(pkg_parent, env_extra, timeout=60 if env_extra else 30)
+        self.crashes = 0
+
+    def close(self):
+        self.w.close()
+
+    def ask(self, cmd, inp):
+        """Worker reply, or None after recording the crash as a spec disagreement."""
+        try:
+            return self.w.ask(cmd)
+        except U.Crash as c:
+            self.crashes += 1
+            self.res.count("crash:" + self.tag)
+            rep = [l for l in c.stderr_tail.split("\n") if "runtime error" in l or "ERROR: AddressSanitizer" in l or "SUMMARY" in l][:4]
+            self.res.disagree("spec", dict(inp, build=self.tag), {"kind": "crash", "status": c.status, "sanitizer": rep,
+                                                                 "stderr_tail": c.stderr_tail[-600:]},
+                              None, {"kind": "value-or-python-exception"},
+                              note="the extension killed / hung the interpreter on this input (%s build)" % self.tag)
+            return None
+
+
+def canon_users_case(case):
+    return {"family": case["family"], "recs": [U.ut_json(r) for r in case["recs"]], "trail": case["trail"].hex()}
+
+
+def users_line(case, emit=False):
+    d = {"op": "users", "recs": [U.ut_json(r) for r in case["recs"]], "trail": case["trail"].hex(), "beyond": ""}
+    if emit:
+        d["emit"] = True
+    return d
+
+
+def rows_from_json(rows):
+    out = []
+    for r in rows:
+        out.append([(None if v is None else (v["s"] if "s" in v else v["i"])) for v in r])
+    return out
+
+
+def compare_users(run, case, m):
+    """m = driver answer for users_line(case)."""
+    res = run.res
+    inp = dict(canon_users_case(case), kind="users")
+    file = b"".join(U.ut_pack(r) for r in case["recs"]) + case["trail"]
+    if "file" in m["model"] and m["model"]["file"] != file.hex():
+        res.disagree("model", inp, file.hex()[:80], m["model"]["file"][:80], None,
+                     note="Lean Spec.render differs from struct.pack of the same record (renderer validation)")
+        return
+    rep = run.ask({"cmd": "users", "file": file.hex()}, inp)
+    if rep is None:
+        return
+    model_rows = rows_from_json(m["model"]["rows"])
+    spec_rows = rows_from_json(m["spec"]["rows"])
+    overrun = any(s > 384 for s in m["model"]["reads"])
+    impl = rep["rows"]
+    feats = set()
+    for r in case["recs"]:
+        if r["typ"] == 7:
+            for k, w in (("user", 32), ("line", 32), ("host", 256)):
+                if b"\0" not in r[k]:
+                    feats.add("full_" + k)
+            if r["host"].split(b"\0")[0] in (b":0", b":0.0"):
+                feats.add("localhost")
+            if r["line"][:1] == b"\0":
+                feats.add("empty_tty")
+        else:
+            feats.add("other_type")
+    if case["trail"]:
+        feats.add("partial_tail")
+    for f in feats:
+        res.count("users:" + f)
+    res.count("users_family:" + case["family"])
+    res.case(("users", file), nontrivial=bool(feats), sample=None)
+    if impl != spec_rows:
+        note = "users() differs from the specification (fields cut at their width, ':0'/':0.0' -> localhost, USER_PROCESS only)"
+        if overrun:
+            note += "; the model of the current source reads past the record (max read index %d > 384)" % max(m["model"]["reads"])
+        res.disagree("spec", inp, impl, model_rows, spec_rows, note=note)
+        return
+    if overrun:
+        # impl == spec although the model says the source reads past the record: only possible when
+        # the bytes behind the record happen to be NUL — still a read outside the record
+        res.disagree("spec", inp, impl, model_rows, spec_rows,
+                     note="model of the current source: string read runs past the 384-byte record (index %d)" % max(m["model"]["reads"]))
+        return
+    if impl != model_rows:
+        res.disagree("model", inp, impl, model_rows, spec_rows, note="users() differs from the Lean model")
+        return
+    if isinstance(rep.get("raw"), list) and len(rep["raw"]) != len(impl):
+        res.disagree("model", inp, rep["raw"], model_rows, spec_rows, note="cext.users() and psutil.users() row counts differ")
+
+
+def part_lines(case, decoded):
+    mn = [[a.hex(), b.hex(), c.hex(), d.hex()] for a, b, c, d in decoded]
+    fsents = [[bool(nd), n.hex()] for nd, n in (case["fsents"] or [])]
+    root = None if case["root"] is None else case["root"].hex()
+    return [{"op": "partitions", "all": al, "fs": case["filesystems"].hex(), "fsents": fsents, "root": root, "mnts": mn}
+            for al in (False, True)]
+
+
+def canon_part_case(case):
+    return {"kind": "partitions", "family": case["family"], "mounts": case["mounts"].hex(), "filesystems": case["filesystems"].hex(),
+            "fsents": None if case["fsents"] is None else [[bool(nd), n.hex()] for nd, n in case["fsents"]],
+            "root": None if case["root"] is None else case["root"].hex()}
+
+
+def compare_partitions(run, case, decoded, m_phys, m_all):
+    res = run.res
+    inp = canon_part_case(case)
+    rep = run.ask({"cmd": "partitions", "mounts": case["mounts"].hex(), "filesystems": case["filesystems"].hex(), "all": [False, True],
+                   "root": inp["root"]}, inp)
+    if rep is None:
+        return
+    res.count("part_family:" + case["family"])
+    exact = decoded is not None
+    nontriv = False
+    if exact:
+        bad_utf8 = any(not (U.utf8_ok(t) and U.utf8_ok(o)) for _, _, t, o in decoded)
+        want_raw = [[a.hex(), b.hex(), t.hex(), o.hex()] for a, b, t, o in decoded]
+        if bad_utf8:
+            res.count("part:nonutf8")
+            ok = isinstance(rep["raw"], dict) and rep["raw"].get("exc") == "UnicodeDecodeError"
+            if not ok:
+                res.disagree("model", inp, rep["raw"], {"kind": "exc", "exc": "UnicodeDecodeError"}, None,
+                             note="mnt_type/mnt_opts with invalid UTF-8: expected UnicodeDecodeError from the 's' format")
+            res.case(("part", case["mounts"], case["filesystems"]), nontrivial=True)
+            return
+        if rep["raw"] != want_raw:
+            res.disagree("spec", inp, rep["raw"] if isinstance(rep["raw"], dict) else rep["raw"][:6], want_raw[:6], want_raw[:6],
+                         note="cext.disk_partitions() differs from the independent decoding of the same mounts file")
+            return
+        for key, m in (("phys", m_phys), ("all", m_all)):
+            im = rep[key]
+            mo, sp = m["model"], m["spec"]
+            if case["fsents"] is None and key == "phys":
+                sp = None            # malformed /proc/filesystems: no kernel-format entries to define the spec from
+            if sp is not None and (im.get("kind") != "ok" or im["rows"] != sp["rows"]):
+                res.disagree("spec", dict(inp, all=(key == "all")), _short(im), _short(mo), _short(sp),
+                             note="disk_partitions(all=%s) differs from the specification" % (key == "all"))
+                return
+            if im.get("kind") != mo.get("kind") or (im.get("kind") == "ok" and im["rows"] != mo["rows"]) \
+                    or (im.get("kind") == "exc" and im.get("exc") != mo.get("exc")):
+                res.disagree("model", dict(inp, all=(key == "all")), _short(im), _short(mo), _short(sp),
+                             note="disk_partitions(all=%s) differs from the Lean model" % (key == "all"))
+                return
+        nontriv = len(decoded) > 0
+        if any(d[0] in (b"/dev/root", b"rootfs") for d in decoded):
+            res.count("part:rootalias")
+        if any(d[0] == b"none" for d in decoded):
+            res.count("part:none_device")
+        if b"\\" in case["mounts"]:
+            res.count("part:escapes")
+        if any(len(l) > 4095 for l in case["mounts"].split(b"\n")):
+            res.count("part:long_line")
+        if m_phys["model"].get("kind") == "exc":
+            res.count("part:IndexError")
+        res.count("part:entries", len(decoded))
+    else:
+        res.count("part:hostile_nocrash")
+    res.case(("part", case["mounts"], case["filesystems"], case["root"]), nontrivial=nontriv)
+
+
+def _short(o):
+    if isinstance(o, dict) and isinstance(o.get("rows"), list) and len(o["rows"]) > 8:
+        return dict(o, rows=o["rows"][:8] + ["… %d rows" % len(o["rows"])])
+    return o
+
+
+def outcome_class(rep):
+    if rep.get("kind") == "exc":
+        return "OSError" if rep.get("oserror") and not rep.get("psutil") else rep["exc"]
+    return "value"
+
+
+def compare_call(run, call, pred, lean):
+    """pred: exception class expected from argument parsing (or None); lean: driver answer or None."""
+    res = run.res
+    inp = {"kind": "call", "call": call}
+    rep = run.ask(dict(call, cmd="call"), inp)
+    if rep is None:
+        return
+    got = outcome_class(rep)
+    fn = call["fn"]
+    res.count("fuzz:" + fn)
+    res.count("fuzz_outcome:" + got)
+    res.case(("call", repr(call)), nontrivial=True)
+    if rep.get("kind") == "bad-arg":
+        raise InfraError("C17 worker could not build argument: %r" % rep)
+    if pred is not None:
+        if got != pred:
+            res.disagree("model", inp, rep, {"kind": "exc", "exc": pred}, {"kind": "value-or-python-exception"},
+                         note="argument parsing: expected %s" % pred)
+        return
+    if lean is None:
+        return
+    mo = lean["model"]
+    if mo.get("kind") == "ub":
+        res.disagree("spec", inp, rep, mo, {"kind": "value-or-python-exception, no undefined behaviour"},
+                     note="model of the current source: this call evaluates a signed left shift whose result is not representable in int (undefined behaviour; UBSan reports it)")
+        return
+    if mo.get("kind") == "oob":
+        res.disagree("spec", inp, rep, mo, None, note="model of the current source: store outside cpu_set_t")
+        return
+    if mo.get("kind") == "exc":
+        if got != mo["exc"]:
+            res.disagree("model", inp, rep, mo, None, note="%s: exception class differs from the Lean model" % fn)
+        return
+    if mo.get("kind") == "none":
+        if got != "value":
+            res.disagree("model", inp, rep, mo, None, note="%s: model says None is returned" % fn)
+        return
+    if mo.get("kind") == "syscall":
+        if got not in ("value", "OSError"):
+            res.disagree("model", inp, rep, mo, None, note="%s: expected a value or OSError after a successful parse" % fn)
+        return
+    if mo.get("kind") == "mask":
+        first = call["args"][0]
+        if first.get("t") == "pid" and first["v"] == "child":
+            allc = rep.get("all_cpus", [])
+            want = sorted(set(mo["cpus"]) & set(allc))
+            if not want:
+                if got != "OSError":
+                    res.disagree("model", inp, rep, mo, None, note="empty effective CPU mask: expected OSError(EINVAL)")
+            elif got != "value" or rep.get("affinity") != want:
+                res.disagree("model", inp, rep, dict(mo, effective=want), None,
+                             note="cpu_affinity_set: resulting affinity differs from the model's mask ∩ online CPUs")
+        elif got not in ("value", "OSError"):
+            res.disagree("model", inp, rep, mo, None, note="expected a value or OSError")
+
+
+# ====================================================================== the correspondence
+
+def lean_for_call(call, fmt):
+    """Driver line that models this call beyond argument parsing (or None)."""
+    fn, args = call["fn"], call["args"]
+
+    def j(a):
+        return arg_int(a) if a["t"] in INTLIKE else None
+    if fn == "check_pid_range" and len(args) == 1:
+        return {"op": "pid", "arg": j(args[0])}
+    if fn == "proc_ioprio_set" and len(args) == 3:
+        return {"op": "ioprio_ext", "pid": j(args[0]), "cls": j(args[1]), "data": j(args[2])}
+    if fn == "proc_cpu_affinity_set" and len(args) == 2:
+        it = seq_items(args[1])
+        if isinstance(it, str):
+            return {"_pred": it}
+        return {"op": "affset", "items": it}
+    return None
+
+
+def grids():
+    cls = [2**18, -2**31 - 1, -2**31, -2, -1, 0, 1, 2, 3, 4, 7, 8, 9, 2**13, 2**17, 2**18 - 1, 2**18 + 1, 2**30, 2**31 - 1, 2**31, 2**63, 2**64]
+    val = [None, -2**31 - 1, -1, 0, 1, 3, 7, 8, 8191, 8192, 2**31 - 1, 2**31]
+    pid = [-2**64, -2**63, -2**31 - 1, -2**31, -2**31 + 1, -2, -1, 0, 1, 2, 2**15, 2**22, 2**31 - 2, 2**31 - 1, 2**31, 2**31 + 1, 2**32, 2**63, 2**64]
+    return cls, val, pid
+
+
+def correspond(ctx, res):
+    res.rule = ("crafted utmp files (7 clause families + corpus incl. the L14 witness), crafted mounts/filesystems files "
+                "(9 families), exhaustive ioprio class×value and pid edge grids, sched_getaffinity EINVAL shim, argument fuzzer "
+                "over every entry point of both extension modules, live NICs vs sysfs; all in sub-processes. "
+                "non-trivial = users file with a USER_PROCESS/full-width/localhost/partial feature, mounts file with ≥1 entry, "
+                "every fuzz call; distinct = distinct file bytes / call tuples")
+    builds = [("std", ctx.snap.dir, None)]
+    san_parent = None
+    if ctx.tier == "thorough":
+        san_parent, cached = U.sanitizer_package(ctx.snap)
+        builds.append(("asan+ubsan", san_parent, U.sanitizer_env()))
+        res.extra["sanitizer_build_cached"] = cached
+    fmts = entry_formats(ctx.snap)
+    res.extra["entry_formats"] = {"%s.%s" % k: v for k, v in sorted(fmts.items())}
+    try:
+        for tag, parent, env in builds:
+            run = Run(ctx, res, parent, env, tag)
+            try:
+                one_build(ctx, res, run, fmts, first=(tag == "std"))
+            finally:
+                run.close()
+            res.extra.setdefault("crashes", {})[tag] = run.crashes
+            res.extra.setdefault("worker_restarts", {})[tag] = run.w.restarts
+    finally:
+        if san_parent:
+            import shutil
+            shutil.rmtree(san_parent, ignore_errors=True)
+
+
+def one_build(ctx, res, run, fmts, first):
+    rng = ctx.rng
+    drv = ctx.driver()
+    lines, todo = [], []          # todo: (kind, payload, line indices)
+
+    def add(line):
+        lines.append(line)
+        return len(lines) - 1
+
+    # ---------------------------------------------------------------- users
+    ucases = G.users_corpus()
+    n_u = ctx.n(700, 6000) if first else ctx.n(700, 3000)
+    for i in range(n_u):
+        ucases.append(G.gen_users_case(rng, G.USERS_FAMILIES[i % len(G.USERS_FAMILIES)]))
+    for i, c in enumerate(ucases):
+        todo.append(("users", c, add(users_line(c, emit=(i < 25)))))
+    # ---------------------------------------------------------------- partitions
+    pcases = G.part_corpus()
+    n_p = ctx.n(300, 2500) if first else ctx.n(300, 1200)
+    for i in range(n_p):
+        pcases.append(G.gen_part_case(rng, G.PART_FAMILIES[i % len(G.PART_FAMILIES)]))
+    for c in pcases:
+        dec = U.getmntent_decode(c["mounts"]) if b"\0" not in c["mounts"] else None
+        if dec is None:
+            todo.append(("part", (c, None), None))
+        else:
+            pl = part_lines(c, dec)
+            todo.append(("part", (c, dec), (add(pl[0]), add(pl[1]))))
+    # ---------------------------------------------------------------- grids (exhaustive)
+    cls, val, pid = grids()
+    child = {"t": "pid", "v": "child"}
+    for c in cls:
+        for v in val:
+            todo.append(("ionice", (c, v), add({"op": "ionice_py", "cls": c, "value": v})))
+            if v is not None:
+                call = {"mod": "linux", "fn": "proc_ioprio_set", "args": [child, G.a_int(c), G.a_int(v)], "post": "ioprio"}
+                todo.append(("call", call, add({"op": "ioprio_ext", "pid": 1000, "cls": c, "data": v})))
+    for p in pid:
+        call = {"mod": "linux", "fn": "check_pid_range", "args": [G.a_int(p)]}
+        todo.append(("call", call, add({"op": "pid", "arg": p})))
+    res.exhaustive = "ioprio grid %d classes × %d values (front end + entry point), %d pid edge values; the other families are samples" % (len(cls), len(val), len(pid))
+    # ---------------------------------------------------------------- pure model-vs-spec ops
+    n_b = ctx.n(400, 3000)
+    for _ in range(n_b):
+        src = bytes(rng.choice([0, 65, 97, 255, rng.randrange(256)]) for _ in range(rng.choice([0, 1, 14, 15, 16, 17, 40, 300])))
+        todo.append(("strncpy", src, add({"op": "strncpy", "src": src.hex(), "n": rng.choice([1, 2, 16, 16, 16, 32, 64])})))
+        data = bytes(rng.randrange(256) for _ in range(rng.choice([1, 6, 6, 8, 20, 32, 254, 255])))
+        todo.append(("mac", data, add({"op": "mac", "data": data.hex()})))
+    flagset = list(range(65536)) if ctx.tier == "thorough" and first else \
+        sorted({0, 65535, 1 << 16, (1 << 16) | 1, 0x1043, 0x11043} | {1 << k for k in range(18)} | {rng.randrange(1 << 18) for _ in range(600)})
+    for f in flagset:
+        todo.append(("iff", f, add({"op": "iff", "flags": f})))
+    needs = [None, 1, 64, 65, 128, 129, 1024, 4096, 2**20] + ([2**27, 2**30] if ctx.tier == "thorough" else [])
+    for nd in needs:
+        todo.append(("affget", nd, add({"op": "affget", "need": nd})))
+    # ---------------------------------------------------------------- argument fuzzer
+    eps = run.ask({"cmd": "entrypoints"}, {"kind": "entrypoints"}) or {}
+    names = [(m, f) for m in ("linux", "posix") for f in eps.get(m, [])]
+    res.extra["entry_points"] = ["%s.%s" % x for x in names]
+    unknown = [x for x in names if x not in fmts]
+    if unknown:
+        res.notes.append("entry points without a recognised PyArg_ParseTuple format (fuzzed under the no-crash oracle only): %s" % unknown)
+    n_f = ctx.n(6000, 40000) if first else ctx.n(6000, 25000)
+    for i in range(n_f):
+        m, f = names[i % len(names)]
+        fmt = fmts.get((m, f))
+        call = G.gen_call(rng, m, f, fmt if fmt is not None else "*")
+        ll = lean_for_call(call, fmt) if fmt is not None else None
+        if ll is not None and "_pred" in ll:
+            todo.append(("call_pred", (call, fmt, ll["_pred"]), None))
+        else:
+            todo.append(("call_fuzz", (call, fmt), add(ll) if ll is not None else None))
+    # ---------------------------------------------------------------- run the model once
+    import time
+    t0 = time.time()
+    outs = drv.batch(lines) if lines else []
+    res.extra.setdefault("driver_s", []).append(round(time.time() - t0, 1))
+    res.extra["driver_lines"] = (res.extra.get("driver_lines") or 0) + len(lines)
+    for o, l in zip(outs, lines):
+        if "bad" in o:
+            raise InfraError("C17 driver rejected %r: %s" % (str(l)[:300], o))
+    # ---------------------------------------------------------------- run the implementation, compare
+    shim = None
+    for kind, payload, idx in todo:
+        if len([d for d in res.disagreements if d["kind"] == "spec"]) >= 12:
+            break
+        if kind == "users":
+            compare_users(run, payload, outs[idx])
+        elif kind == "part":
+            c, dec = payload
+            if idx is None:
+                compare_partitions(run, c, None, None, None)
+            else:
+                compare_partitions(run, c, dec, outs[idx[0]], outs[idx[1]])
+        elif kind == "call":
+            compare_call(run, payload, predict_parse(fmts.get((payload["mod"], payload["fn"]), "*"), payload["args"]), outs[idx])
+        elif kind == "call_fuzz":
+            call, fmt = payload
+            pred = predict_parse(fmt, call["args"]) if fmt is not None else None
+            if fmt == "O" and call["args"] and len(call["args"]) == 1 and call["args"][0]["t"] == "badbool":
+                pred = "RuntimeError"
+            compare_call(run, call, pred, outs[idx] if idx is not None else None)
+        elif kind == "call_pred":
+            call, fmt, p2 = payload
+            pred = predict_parse(fmt, call["args"]) or p2
+            compare_call(run, call, pred, None)
+        elif kind == "ionice":
+            compare_ionice(run, payload, outs[idx])
+        elif kind in ("strncpy", "mac", "iff"):
+            m = outs[idx]
+            res.case((kind, payload), nontrivial=True)
+            res.count("bounds:" + kind)
+            mo, sp = m["model"], m["spec"]
+            same = (mo == sp) if kind == "iff" else all(mo.get(k) == v for k, v in sp.items())
+            if not same:
+                res.disagree("spec", {"kind": kind, "input": payload.hex() if isinstance(payload, bytes) else payload,
+                                      "line": lines[idx]}, mo, mo, sp,
+                             note=("net_if_flags() can return a flag name that docs/index.rst (net_if_stats) does not list: %s" % mo.get("undocumented")
+                                   if kind == "iff" and mo.get("names") == sp.get("names") else
+                                   "model of the current source violates the specification of %s" % kind))
+        elif kind == "affget":
+            if shim is None:
+                shim = U.build_shim()
+            compare_affget(run, shim, payload, outs[idx])
+    if first:
+        live_netif(run, drv)
+
+
+def compare_ionice(run, payload, m):
+    c, v = payload
+    inp = {"kind": "ionice", "cls": c, "value": v}
+    rep = run.ask({"cmd": "ionice", "cls": c, "value": v}, inp)
+    if rep is None:
+        return
+    res = run.res
+    res.case(("ionice", c, v), nontrivial=True)
+    res.count("ionice_grid")
+    mo = m["model"]
+    got = outcome_class(rep)
+    if mo["kind"] == "ub":
+        res.disagree("spec", inp, rep, mo, {"kind": "value-or-python-exception, no undefined behaviour"},
+                     note="Process.ionice(%r, %r): every Python-side check passes and the extension evaluates %r << 13 in a C int (undefined behaviour; UBSan: 'left shift of %r by 13 places cannot be represented in type int')" % (c, v, c, c))
+    elif mo["kind"] == "exc":
+        if got != mo["exc"]:
+            res.disagree("model", inp, rep, mo, None, note="ionice(): exception class differs from the Lean model")
+    elif got not in ("value", "OSError", "AccessDenied", "NoSuchProcess"):
+        res.disagree("model", inp, rep, mo, None, note="ionice(): expected None or an OS error")
+
+
+def compare_affget(run, shim, need, m):
+    res = run.res
+    env = dict(run.env_extra or {})
+    pre = env.get("LD_PRELOAD")
+    env["LD_PRELOAD"] = (pre + ":" if pre else "") + shim
+    if need is not None or True:
+        env["C17_NEED_BITS"] = "never" if need is None else str(need)
+    inp = {"kind": "affget", "need": need, "build": run.tag}
+    w = U.Worker(run.pkg_parent, env, timeout=90)
+    try:
+        try:
+            rep = w.ask({"cmd": "call", "mod": "linux", "fn": "proc_cpu_affinity_get", "args": [{"t": "pid", "v": "self"}], "want": True})
+        except U.Crash as c:
+            res.count("crash:" + run.tag)
+            res.disagree("spec", inp, {"kind": "crash", "status": c.status, "stderr_tail": c.stderr_tail[-600:]}, m["model"],
+                         {"kind": "value-or-python-exception"},
+                         note="cpu_affinity_get with a kernel that answers EINVAL below %s bits: interpreter killed / hung" % need)
+            return
+    finally:
+        w.close()
+    res.case(("affget", need), nontrivial=True)
+    res.count("affget_shim")
+    mo = m["model"]
+    got = outcome_class(rep)
+    if mo["kind"] in ("ub", "loop"):
+        res.disagree("spec", inp, rep, mo, {"kind": "value-or-OverflowError"},
+                     note="model of the current source: the doubling loop overflows int / does not terminate")
+    elif mo["kind"] == "exc":
+        if got != mo["exc"]:
+            res.disagree("model", inp, rep, mo, None, note="cpu_affinity_get: expected %s" % mo["exc"])
+    elif got != "value" or not isinstance(rep.get("value"), list) or not rep["value"]:
+        res.disagree("model", inp, rep, mo, None, note="cpu_affinity_get: expected the CPU list")
+
+
+def live_netif(run, drv):
+    """Supporting check: net_if_addrs()/net_if_stats() vs /sys/class/net and socket.if_nameindex()."""
+    import os
+    import socket
+    res = run.res
+    names = sorted(n for _, n in socket.if_nameindex())
+    rep = run.ask({"cmd": "netif", "names": names}, {"kind": "netif"})
+    if rep is None:
+        return
+    inp = {"kind": "netif", "names": names}
+    sysfs = {}
+    for n in names:
+        d = {}
+        for k in ("address", "mtu", "flags", "operstate", "addr_len"):
+            try:
+                with open("/sys/class/net/%s/%s" % (n, k)) as f:
+                    d[k] = f.read().strip()
+            except OSError:
+                d[k] = None
+        sysfs[n] = d
+    lines = []
+    for n in names:
+        a = sysfs[n]["address"]
+        lines.append({"op": "mac", "data": (a or "").replace(":", "")})
+        lines.append({"op": "iff", "flags": int(sysfs[n]["flags"] or "0", 16)})
+    outs = drv.batch(lines) if lines else []
+    if isinstance(rep["stats"], dict) and "kind" not in rep["stats"]:
+        if sorted(rep["stats"]) != names:
+            res.disagree("spec", inp, sorted(rep["stats"]), None, names, note="net_if_stats() keys differ from socket.if_nameindex()")
+    if isinstance(rep["addrs"], dict) and "kind" not in rep["addrs"]:
+        extra = sorted(set(rep["addrs"]) - set(names))
+        if extra:
+            res.disagree("spec", inp, extra, None, names, note="net_if_addrs() lists interfaces the kernel does not")
+    for i, n in enumerate(names):
+        mac_m, iff_m = outs[2 * i], outs[2 * i + 1]
+        res.case(("netif", n), nontrivial=True)
+        res.count("netif_live")
+        st = rep["stats"].get(n) if isinstance(rep["stats"], dict) else None
+        if st is not None and sysfs[n]["mtu"] is not None and st["mtu"] != int(sysfs[n]["mtu"]):
+            res.disagree("spec", dict(inp, nic=n), st, None, sysfs[n], note="MTU differs from /sys/class/net/%s/mtu" % n)
+        # sysfs `flags` shows dev->flags: IFF_RUNNING (0x40) and the volatile bits are computed separately
+        static = [x for x in iff_m["model"]["names"] if x != "running"]
+        fl = rep["flags"].get(n)
+        if isinstance(fl, list):
+            if [x for x in fl if x != "running"] != static:
+                res.disagree("spec", dict(inp, nic=n), fl, iff_m["model"]["names"], iff_m["spec"]["names"], note="net_if_flags() differs from the names of the bits of /sys/class/net/%s/flags" % n)
+            if st is not None and st["flags"] != ",".join(fl):
+                res.disagree("model", dict(inp, nic=n), st, fl, None, note="net_if_stats().flags is not ','.join(net_if_flags())")
+            if st is not None and st["isup"] != ("running" in fl):
+                res.disagree("model", dict(inp, nic=n), st, fl, None, note="isup is not 'running' in flags")
+        macs = [a for a in (rep["addrs"].get(n) or []) if a[0] == rep["af_link"]] if isinstance(rep["addrs"], dict) else []
+        want = mac_m["model"]["text"]
+        if macs and want is not None:
+            got = macs[0][1].encode().hex()
+            # front end pads an address shorter than 6 bytes with :00
+            if got != want and not (bytes.fromhex(got).startswith(bytes.fromhex(want))):
+                res.disagree("spec", dict(inp, nic=n), macs[0], mac_m["model"], sysfs[n], note="AF_LINK address differs from /sys/class/net/%s/address" % n)
+
+
+def search(ctx, res, broken):
+    correspond(ctx, res)
+
+
+# ====================================================================== shrink / replay
+
+def _replay_case(ctx, res, inp):
+    """Re-run one recorded input; disagreements land in `res`."""
+    k = inp.get("kind")
+    builds = [("std", ctx.snap.dir, None)]
+    san_parent = None
+    if inp.get("build") == "asan+ubsan":
+        san_parent, _ = U.sanitizer_package(ctx.snap)
+        builds = [("asan+ubsan", san_parent, U.sanitizer_env())]
+    fmts = entry_formats(ctx.snap)
+    drv = ctx.driver()
+    try:
+        for tag, parent, env in builds:
+            run = Run(ctx, res, parent, env, tag)
+            try:
+                if k == "users":
+                    recs = [{kk: (bytes.fromhex(v) if isinstance(v, str) else v) for kk, v in r.items()} for r in inp["recs"]]
+                    case = {"family": inp.get("family", "replay"), "recs": recs, "trail": bytes.fromhex(inp["trail"])}
+                    compare_users(run, case, drv.batch([users_line(case)])[0])
+                elif k == "partitions":
+                    case = {"family": inp.get("family", "replay"), "mounts": bytes.fromhex(inp["mounts"]),
+                            "filesystems": bytes.fromhex(inp["filesystems"]),
+                            "fsents": None if inp["fsents"] is None else [[nd, bytes.fromhex(n)] for nd, n in inp["fsents"]],
+                            "root": None if inp["root"] is None else bytes.fromhex(inp["root"])}
+                    if b"\0" in case["mounts"]:
+                        compare_partitions(run, case, None, None, None)
+                    else:
+                        dec = U.getmntent_decode(case["mounts"])
+                        o = drv.batch(part_lines(case, dec))
+                        compare_partitions(run, case, dec, o[0], o[1])
+                elif k == "call":
+                    call = inp["call"]
+                    fmt = fmts.get((call["mod"], call["fn"]))
+                    ll = lean_for_call(call, fmt) if fmt is not None else None
+                    pred = predict_parse(fmt, call["args"]) if fmt is not None else None
+                    if ll is not None and "_pred" in ll:
+                        compare_call(run, call, pred or ll["_pred"], None)
+                    else:
+                        compare_call(run, call, pred, drv.batch([ll])[0] if ll is not None else None)
+                elif k == "ionice":
+                    compare_ionice(run, (inp["cls"], inp["value"]), drv.batch([{"op": "ionice_py", "cls": inp["cls"], "value": inp["value"]}])[0])
+                elif k == "affget":
+                    compare_affget(run, U.build_shim(), inp["need"], drv.batch([{"op": "affget", "need": inp["need"]}])[0])
+                elif k in ("strncpy", "mac", "iff"):
+                    m = drv.batch([inp["line"]])[0]
+                    mo, sp = m["model"], m["spec"]
+                    same = (mo == sp) if k == "iff" else all(mo.get(kk) == v for kk, v in sp.items())
+                    if not same:
+                        res.disagree("spec", inp, mo, mo, sp, note="model of the current source violates the specification of %s" % k)
+                elif k == "netif":
+                    live_netif(run, drv)
+                else:
+                    return None
+            finally:
+                run.close()
+    finally:
+        if san_parent:
+            import shutil
+            shutil.rmtree(san_parent, ignore_errors=True)
+    return True
+
+
+def _still_fails(ctx, inp):
+    from harness.common.runner import Result
+    r = Result()
+    ok = _replay_case(ctx, r, inp)
+    if ok is None:
+        return True
+    return any(d["kind"] == "spec" for d in r.disagreements), r
+
+
+def shrink(ctx, d):
+    inp = d["input"]
+    if inp.get("kind") == "users" and len(inp.get("recs", [])) > 1:
+        def fails(recs):
+            return _still_fails(ctx, dict(inp, recs=recs, trail=""))[0]
+        small = ddmin(inp["recs"], fails, max_tests=24)
+        f, r = _still_fails(ctx, dict(inp, recs=small, trail=""))
+        if f:
+            dd = [x for x in r.disagreements if x["kind"] == "spec"][0]
+            return dict(d, input=dd["input"], impl=dd["impl"], model=dd["model"], spec=dd["spec"], note=dd["note"])
+    if inp.get("kind") == "partitions" and inp.get("mounts"):
+        ls = bytes.fromhex(inp["mounts"]).split(b"\n")
+        if 1 < len(ls) <= 400:
+            def fails(sub):
+                return _still_fails(ctx, dict(inp, mounts=(b"\n".join(sub) + b"\n").hex()))[0]
+            small = ddmin(ls, fails, max_tests=24)
+            f, r = _still_fails(ctx, dict(inp, mounts=(b"\n".join(small) + b"\n").hex()))
+            if f:
+                dd = [x for x in r.disagreements if x["kind"] == "spec"][0]
+                return dict(d, input=dd["input"], impl=dd["impl"], model=dd["model"], spec=dd["spec"], note=dd["note"])
+    return d
+
+
+def replay(ctx, rp, res):
+    inp = rp.get("input")
+    if not isinstance(inp, dict) or "kind" not in inp:
+        return True
+    ok = _replay_case(ctx, res, inp)
+    if ok is None:
+        return True
+    return any(d["kind"] == "spec" for d in res.disagreements)
+
+
+def check_finding(ctx, fnd):
+    from harness.common.runner import Result
+    w = fnd.get("witness") or {}
+    if "input" not in w:
+        return "unknown"
+    r = Result()
+    _replay_case(ctx, r, w["input"])
+    return "reproduces" if any(d["kind"] == "spec" for d in r.disagreements) else "gone"
